@@ -38,6 +38,28 @@ func workersRules(c *Ctx) {
 				got = P.PathCond(q.fn, nil, g, keepForms(d))
 			}
 			ok, cex := an.EquivDNF(got, an.DNF{conj(lit(d, an.SNeg))})
+			if !ok {
+				// the same as a countdown of the precomputed deficit: for missing := requested - count; missing > 0; missing--
+				if hi, _, lo, okb := loopBound(P, g); okb && lo == 0 {
+					if hin, isIn := hi.(ssa.Instruction); isIn {
+						pre := false
+						for _, pb := range g.Block().Preds {
+							for _, pp := range pb.Preds {
+								pre = pre || pp == hin.Block()
+							}
+							pre = pre || pb == hin.Block()
+						}
+						for _, st := range an.FieldStores(q.fn, "Workers.count") {
+							if st.Block() == hin.Block() && P.Before(q.fn, an.Is(hin), st) {
+								pre = false
+							}
+						}
+						if pre && P.Lin(hi).Equal(aP(cnt).Minus(P.FieldAt(w+".count", hin))) {
+							ok = true
+						}
+					}
+				}
+			}
 			q.add("COND", "a worker is spawned iff count < requested count", ok, pickS(ok, "go reached iff count - requested < 0", "a worker is spawned iff ["+got.String()+"]; "+cex), g)
 			q.add("WL", "workers are topped up in a loop", P.InCycle(g), "the spawn lies in a loop re-reading count", g)
 			cs := an.FieldStores(q.fn, "Workers.count")
